@@ -2,17 +2,20 @@
 SPEC = dict(
     title="Shutdown waits for in-flight snapshot or backup only as long as needed",
     pkg="./store", files=["store/c31_verif_test.go"],
-    rule="real BeginWithRetry on a grid of 2 (thorough: 5x4) retry intervals (120-400 ms) x 4 timeouts x 8 holder release times (gate free, never released, and "
-         "half-interval offsets on both sides of the deadline), plus real Store.Close with the snapshot gate held for 0, 5, 50, 500, 2000 and 11000 ms "
-         "(thorough: 12 hold times up to 12 s); non-trivial when the holder releases after the first poll and the caller then acquires; distinct by grid point",
+    rule="real BeginWithRetry on a grid of 2 (thorough: 5x4) retry intervals (120-400 ms) x 3 (thorough: 4) timeouts x 8 holder release times, every point run until two runs agree (gate free, never released, and "
+         "half-interval offsets on both sides of the deadline), plus real Store.Close (14 stores quick / 60 thorough) over {snapshot-on-close on/off} x {nothing / a write applied since the last snapshot} x "
+         "{gate held by a raw CheckAndSet owner, by a real Store.Backup streaming to a blocked client} x hold times 0 ms ... 12 s, and one gate-discipline case "
+         "(real Store.Snapshot and fsmSnapshot attempts while another owner holds the gate); non-trivial when the holder releases after the first poll and the caller then acquires; distinct by grid point",
     exhaustive=False,
     trusted=["time.Now / time.Sleep: only Sleep advances the model's clock (Begin and the deadline comparison take no time); a timeout that falls exactly on a poll instant is not exercised",
              "the arguments of the BeginWithRetry(\"close\", ...) call are read from store/store.go with go/parser by the driver"],
-    assumptions=["timing observations are compared with the model up to half a retry interval; runs in which a canary goroutine sees scheduling noise above a fifth of the interval are repeated and otherwise reported inconclusive",
+    assumptions=["the third holder kind asked for (a user Snapshot stalled by a parked reader) is not driven: fsmSnapshot holds the gate only for the bounded checkpoint (truncateTimeout 250 ms), so its hold time cannot be controlled from the driver",
+                 "timing observations are compared with the model up to half a retry interval; runs in which a canary goroutine sees scheduling noise above a fifth of the interval are repeated and otherwise reported inconclusive",
                  "Store.Close: 'promptly' is checked as 'Close owns the gate within 1 s of the release' (correct code: <= 10 ms + scheduling; the defect: ~10 s)"],
     level_text="C31_retry_spec / C31_retry_closed_form hold for every timeout, positive retry interval and release time: the loop ends, acquires at the first poll at or after the release "
                "(release <= t < release + interval), never before, always if the release is within the timeout, and fails only at the first poll after the deadline if the gate is still held then; "
-               "C31_close instantiates the call site of Store.Close (10 s, 10 ms).",
+               "C31_close instantiates the call site of Store.Close (10 s, 10 ms); C31_gate_refusal_keeps_holder / C31_gate_holder_until_own_end: under the gate's caller discipline "
+               "(only the caller of a successful Begin calls End; C34's cas model) a refused attempt changes nothing and the holder keeps the gate until its own End.",
     level_note="Model = BeginWithRetry's loop over a millisecond clock (fuelled; out-of-fuel is an explicit outcome proved unreachable); call-site constants are source-derived; "
                "tie = real primitive on a timing grid + real Store.Close with a held gate.",
     technique="Coq proof of the retry loop's closed form over all parameters + timed differential run of the real primitive and of Store.Close",
